@@ -463,6 +463,11 @@ def valid_pair(gen, cls=None, minor=None, tries=5):
 # ---------------------------------------------------------------------------
 # merge triples
 # ---------------------------------------------------------------------------
+def canon_eq(a, b):
+    from .canon import canon
+    return canon(a) == canon(b)
+
+
 TRIPLE_CLASSES = ["random", "random", "random", "del_vs_edit", "del_vs_edit", "insert_near", "both_insert_similar",
                   "both_insert_dissimilar", "same_attachment", "same_meta_key", "same_output", "same_line",
                   "minor_diff", "retype", "empty_source", "both_append_outputs", "exec_count", "fixture",
@@ -1103,6 +1108,15 @@ def merge_triple(gen, cls=None, minor=None, plain_eol=False):
                 att[r.choice(["a.png", "b.png"])] = gen.mimebundle(True)
             if r.random() < 0.3:
                 att["LOCAL_a.png"] = gen.mimebundle(True)
+        if "attachments" in base["cells"][0] and base["cells"][0]["attachments"] and r.random() < 0.2:
+            # one side drops the cell's whole `attachments` member (the images were removed from the text), the other
+            # edits an attachment in it: remove-vs-patch one level ABOVE the attachment names
+            side = r.choice([loc, rem])
+            del side["cells"][0]["attachments"]
+            other = rem if side is loc else loc
+            oa = other["cells"][0].setdefault("attachments", {})
+            if canon_eq(oa, base["cells"][0]["attachments"]):
+                oa[sorted(base["cells"][0]["attachments"])[0]] = gen.mimebundle(True)
     elif cls in ("same_meta_key", "nbmeta_conflict", "multi_line_meta"):
         target = "nb" if cls == "nbmeta_conflict" or r.random() < 0.3 else "cell"
         key = r.choice(["x", "tags", "nested", "collapsed"])
